@@ -306,6 +306,7 @@ func uniq(a []string) []string {
 
 func (w *c05World) key() string {
 	d := core.NewDumper(time.Unix(vrt.BaseUnix, 0).Add(time.Duration(vrt.PassNow)))
+	d.Caps = true // two pools with equal lists but different spare capacity are different states (slice aliasing)
 	d.Add("mp", w.mp)
 	return core.HashStr(d.String() + "##" + w.ref.key())
 }
@@ -380,7 +381,7 @@ func c05Component(rep *core.Report, pool *core.Pool, names []string, depth, maxS
 func runC05() int {
 	rep := core.NewReport("C05", "model_checking")
 	pool := core.NewPool()
-	names, depth, maxStates, budget := []string{"A", "B", "C", "D", "E"}, 5, 300000, 90*time.Second
+	names, depth, maxStates, budget := []string{"A", "B", "C", "D", "E"}, 5, 400000, 90*time.Second
 	if rep.Thorough() {
 		names, depth, maxStates, budget = c05U.order, 7, 4000000, 15*time.Minute
 	}
@@ -402,6 +403,8 @@ func runC05() int {
 	rep.Coverage["unsafe_flag_persistence_cases"] = sub.Coverage["component_cases"]
 	histCheckInto(rep, histCheck{prop: "C05", scenarios: c05NodeScenarios(), depthQ: 4, depthT: 6, statesQ: 250000, statesT: 4000000,
 		budgetQ: 120 * time.Second, budgetT: 15 * time.Minute, assume: peerAssumption,
+		// "neither is subsequently reported safe" is the same observation as C07's clause
+		accept: func(v core.Violation) bool { return v.Clause == "no-safe-after-unsafe" },
 		rule: "(1) component: explicit-state BFS over {add tx (trusted/untrusted), remove, conflicting-query, add-request, tick 3.1s} on the real MemPool with txs A,B (same outpoint), C (two outpoints, overlapping A/B and D), D, E (independent), F (child of A), G; conflict sets, flags and the outpoint index compared with map[outpoint]set<txid> after every step. (2) node: explicit-state BFS over arrival orders and sources of R1, D1 (relevant double spend), D2 (irrelevant double spend), R3, M1 (spends the outpoints of I1 and R3), I1, confirmations that evict some of them, clock and restart on the real Node.Run; every relevant member of a conflicting pair must be reported unsafe and never safe afterwards, txs sharing no outpoint are never flagged"})
 	return rep.Finish()
 }
